@@ -75,7 +75,8 @@ pub fn verbatim_marks(text: &str, toks: &[Tok]) -> Vec<bool> {
 
 /// Byte ranges of the verbatim regions of `text`: from the first byte of an off-comment to the last byte of the next
 /// on-comment (or the end of the text).
-pub fn regions(text: &str, toks: &[Tok]) -> Vec<(usize, usize)> {
+pub fn regions(text: &str, toks: &[Tok]) -> Vec<(usize, usize, bool)> {
+    // (start, end, open): open = the region is not closed by an on-comment and runs to the end of the text
     let mut res = vec![];
     let mut start: Option<usize> = None;
     for t in toks {
@@ -86,14 +87,14 @@ pub fn regions(text: &str, toks: &[Tok]) -> Vec<(usize, usize)> {
             Some(Toggle::Off) if start.is_none() => start = Some(t.content_start()),
             Some(Toggle::On) => {
                 if let Some(s) = start.take() {
-                    res.push((s, t.end()));
+                    res.push((s, t.end(), false));
                 }
             }
             _ => {}
         }
     }
     if let Some(s) = start {
-        res.push((s, text.len()));
+        res.push((s, text.len(), true));
     }
     res
 }
